@@ -64,9 +64,16 @@ Definition sys_chmod (f : fs) (p : path) (m : N) : option fs :=
   | None => None
   end.
 
+(* Linux: a successful chown of a regular file clears S_ISUID, and S_ISGID if the file is
+   group-executable - for every caller, root included, whether or not the group changes *)
+Definition sugid_free : N := 1024.        (* modes below 02000 carry neither bit *)
+Definition kill_sugid (m : N) : N :=
+  let m1 := if ((m / 2048) mod 2 =? 1)%N then (m - 2048)%N else m in
+  if (((m1 / 1024) mod 2 =? 1) && ((m1 / 8) mod 2 =? 1))%N%bool then (m1 - 1024)%N else m1.
+
 Definition sys_chown (e : env) (f : fs) (p : path) (g : N) : option fs :=
   match f p with
-  | Some x => if may_chown e g then Some (upd f p (Some (mkFile (fcontent x) (fmode x) g))) else None
+  | Some x => if may_chown e g then Some (upd f p (Some (mkFile (fcontent x) (kill_sugid (fmode x)) g))) else None
   | None => None
   end.
 
